@@ -755,6 +755,7 @@ func perturbations(rng *rand.Rand, v reflect.Value) []reflect.Value {
 			c.Index(i).Set(other(c.Index(i)))
 			out = append(out, c)
 			out = append(out, deep(v).Slice(0, v.Len()-1))
+			out = append(out, v.Slice(0, v.Len()-1)) // a shorter view of the SAME array
 		}
 		if v.Len() > 1 && !reflect.DeepEqual(v.Index(0).Interface(), v.Index(1).Interface()) {
 			c := deep(v)
